@@ -100,4 +100,39 @@ def covers (r : Rule S V) (e : S) : Bool :=
   | none => true
   | some es => es.contains e
 
+/-! ## executable well-formedness check (audit addition)
+
+`wfrB` is a Bool test that is SUFFICIENT for the hypothesis `WFr` of
+`scoped_rules_preserve_values_r` (soundness: `Proofs/OptimiserScoped.lean::wfrB_sound`).  The driver
+evaluates it on the rule lists that the real `initialise_from_nested` hands to
+`update_scoped_rules`, so the harness can say how many REAL inputs the theorem applies to. -/
+
+/-- both unscoped, or both scoped with the same set of edges -/
+def scopeEq (a b : Rule S V) : Bool :=
+  match a.edges, b.edges with
+  | none, none => true
+  | some x, some y => sameSet x y
+  | _, _ => false
+
+/-- both scoped and no common edge -/
+def disjointScopes (a b : Rule S V) : Bool :=
+  match a.edges, b.edges with
+  | some x, some y => x.all (fun e => !(y.contains e))
+  | _, _ => false
+
+/-- two different rules of one parameter have disjoint explicit scopes -/
+def pairwiseDisj [DecidableEq V] (l : List (Rule S V)) : Bool :=
+  l.all (fun a => l.all (fun b => !(a.par == b.par) || decide (a = b) || disjointScopes a b))
+
+/-- the four clauses of `WFr`, decidably: faithful keys, disjoint scopes in each list, and no
+character mangling of a singular-`"edge"` null rule THAT IS NOT KEY-MATCHED by a rich rule -/
+def wfrB [DecidableEq V] (chars : S → List S) (kr kn : List (Rule S V)) : Bool :=
+  kr.all (fun r => kn.all (fun n => !(keyEq r n) || (r.par == n.par && scopeEq r n))) &&
+  pairwiseDisj kr && pairwiseDisj kn &&
+  kn.all (fun n => kr.any (fun r => keyEq r n) || decide (nullEnames chars n = n.edges))
+
+/-- the ORIGINAL `WF.quirk` clause (every null rule, key-matched or not), for the histogram -/
+def quirkAllB (chars : S → List S) (kn : List (Rule S V)) : Bool :=
+  kn.all (fun n => decide (nullEnames chars n = n.edges))
+
 end CogentModel.ScopedRules
